@@ -15,6 +15,7 @@ import Daac.Props.C02
 import Daac.Props.C03
 import Daac.Props.C05
 import Daac.Proofs.BuildCor
+import Daac.Proofs.Rung2
 namespace Daac.Props.C11
 open Daac
 variable {V : Type} [DecidableEq V]
@@ -83,5 +84,62 @@ theorem num_states_same (variant : Variant) (kind n1 n2 : Nat) (P : List (LPat V
   rw [ha1] at ha2
   cases ha2
   rw [(buildRest_ok _ _ _ _ _ _ hr1).2.2.2, (buildRest_ok _ _ _ _ _ _ hr2).2.2.2]
+
+
+/-! ### Rung 2 — `num_free_blocks` is a pure space/time knob, for every pattern collection
+
+In the model of the builder, for ANY two values of `num_free_blocks` for which construction
+succeeds, every search method returns the same matches on every haystack (both equal the
+specification, Proofs/Rung2.lean). -/
+
+theorem nfb_irrelevant_overlapping (n1 n2 : Nat) (Ps : List (Pat V)) (hV : ValidPats Ps)
+    (hbytes : ∀ p ∈ Ps, ∀ b ∈ p.key, b < 256) (d1 d2 : DA V)
+    (h1 : buildDA .bytewise ⟨0, n1⟩ (Ps.map lp) = .ok d1) (h2 : buildDA .bytewise ⟨0, n2⟩ (Ps.map lp) = .ok d2)
+    (h : List Nat) (hh : ∀ b ∈ h, b < 256) :
+    ∃ l1 l2 f1 f2, ovAll d1 h = .ok (l1, f1) ∧ ovAll d2 h = .ok (l2, f2) ∧ l1.map (·.1) = l2.map (·.1) := by
+  obtain ⟨l1, f1, a1, b1⟩ := bytewise_overlapping_correct n1 Ps hV hbytes d1 h1 h hh
+  obtain ⟨l2, f2, a2, b2⟩ := bytewise_overlapping_correct n2 Ps hV hbytes d2 h2 h hh
+  exact ⟨l1, l2, f1, f2, a1, a2, by rw [b1, b2]⟩
+
+theorem nfb_irrelevant_find (n1 n2 : Nat) (Ps : List (Pat V)) (hV : ValidPats Ps)
+    (hbytes : ∀ p ∈ Ps, ∀ b ∈ p.key, b < 256) (d1 d2 : DA V)
+    (h1 : buildDA .bytewise ⟨0, n1⟩ (Ps.map lp) = .ok d1) (h2 : buildDA .bytewise ⟨0, n2⟩ (Ps.map lp) = .ok d2)
+    (h : List Nat) (hh : ∀ b ∈ h, b < 256) :
+    ∃ l1 l2 f1 f2, findAll d1 h = .ok (l1, f1) ∧ findAll d2 h = .ok (l2, f2) ∧ l1.map (·.1) = l2.map (·.1) := by
+  obtain ⟨l1, f1, a1, b1⟩ := bytewise_find_correct n1 Ps hV hbytes d1 h1 h hh
+  obtain ⟨l2, f2, a2, b2⟩ := bytewise_find_correct n2 Ps hV hbytes d2 h2 h hh
+  exact ⟨l1, l2, f1, f2, a1, a2, by rw [b1, b2]⟩
+
+theorem nfb_irrelevant_nosuffix (n1 n2 : Nat) (Ps : List (Pat V)) (hV : ValidPats Ps)
+    (hbytes : ∀ p ∈ Ps, ∀ b ∈ p.key, b < 256) (d1 d2 : DA V)
+    (h1 : buildDA .bytewise ⟨0, n1⟩ (Ps.map lp) = .ok d1) (h2 : buildDA .bytewise ⟨0, n2⟩ (Ps.map lp) = .ok d2)
+    (h : List Nat) (hh : ∀ b ∈ h, b < 256) :
+    ∃ l1 l2 f1 f2, noSufAll d1 h = .ok (l1, f1) ∧ noSufAll d2 h = .ok (l2, f2) ∧ l1.map (·.1) = l2.map (·.1) := by
+  obtain ⟨l1, f1, a1, b1⟩ := bytewise_nosuffix_correct n1 Ps hV hbytes d1 h1 h hh
+  obtain ⟨l2, f2, a2, b2⟩ := bytewise_nosuffix_correct n2 Ps hV hbytes d2 h2 h hh
+  exact ⟨l1, l2, f1, f2, a1, a2, by rw [b1, b2]⟩
+
+theorem nfb_irrelevant_leftmost (kind : Nat) (hk : kind = 1 ∨ kind = 2) (n1 n2 : Nat) (Ps : List (Pat V))
+    (hV : ValidPats Ps) (hbytes : ∀ p ∈ Ps, ∀ b ∈ p.key, b < 256) (d1 d2 : DA V)
+    (h1 : buildDA .bytewise ⟨kind, n1⟩ (Ps.map lpOf) = .ok d1) (h2 : buildDA .bytewise ⟨kind, n2⟩ (Ps.map lpOf) = .ok d2)
+    (h : List Nat) (hh : ∀ b ∈ h, b < 256) :
+    ∃ l1 l2, lmAll d1 h = .ok (l1, 0) ∧ lmAll d2 h = .ok (l2, 0) ∧ l1.map (·.1) = l2.map (·.1) := by
+  rcases hk with rfl | rfl
+  · obtain ⟨l1, a1, b1⟩ := bytewise_leftmost_longest_correct n1 Ps hV hbytes d1 h1 h hh
+    obtain ⟨l2, a2, b2⟩ := bytewise_leftmost_longest_correct n2 Ps hV hbytes d2 h2 h hh
+    exact ⟨l1, l2, a1, a2, by rw [b1, b2]⟩
+  · obtain ⟨l1, a1, b1⟩ := bytewise_leftmost_first_correct n1 Ps hV hbytes d1 h1 h hh
+    obtain ⟨l2, a2, b2⟩ := bytewise_leftmost_first_correct n2 Ps hV hbytes d2 h2 h hh
+    exact ⟨l1, l2, a1, a2, by rw [b1, b2]⟩
+
+theorem nfb_irrelevant_overlapping_charwise (n1 n2 : Nat) (Q : List (List Nat × V)) (hQ : ScalarPats Q)
+    (hQ0 : Q ≠ []) (hnd : (Q.map (·.1)).Nodup) (d1 d2 : DA V)
+    (h1 : buildDA .charwise ⟨0, n1⟩ (Q.map charPat) = .ok d1) (h2 : buildDA .charwise ⟨0, n2⟩ (Q.map charPat) = .ok d2)
+    (t : List Nat) (ht : Scalars t) :
+    ∃ l1 l2 f1 f2, ovAll d1 (encAll t) = .ok (l1, f1) ∧ ovAll d2 (encAll t) = .ok (l2, f2) ∧
+      l1.map (·.1) = l2.map (·.1) := by
+  obtain ⟨l1, f1, a1, b1⟩ := charwise_overlapping_correct n1 Q hQ hQ0 hnd d1 h1 t ht
+  obtain ⟨l2, f2, a2, b2⟩ := charwise_overlapping_correct n2 Q hQ hQ0 hnd d2 h2 t ht
+  exact ⟨l1, l2, f1, f2, a1, a2, by rw [b1, b2]⟩
 
 end Daac.Props.C11
